@@ -360,7 +360,41 @@ def shard_random(task):
     return ev, fails
 
 
+# ---- sections with nothing in them: the filters receive the empty string once -----------------------------------------
+def check_empty_sections(ev, fails):
+    from mako.template import Template
+
+    shapes = {
+        "text-selfclosed": '[<%%text%s/>]', "text-empty": '[<%%text%s></%%text>]', "block-empty": '[<%%block%s></%%block>]',
+        "named-block-empty": '[<%%block name="eb"%s></%%block>]', "def-empty": '<%%def name="ed()"%s></%%def>[${ed() | n}]',
+        "block-selfclosed": '[<%%block%s/>]',
+    }
+    k = 0
+    for name, shape in sorted(shapes.items()):
+        for fl in ([], ["fa"], ["fa", "fb"], ["trim", "fc"], ["h"]):
+            for D in (None, ["fb"]):
+                k += 1
+                attr = ' filter="%s"' % ", ".join(fl) if fl else ""
+                text = shape % attr
+                exp = "[" + str(apply(fl, "")) + "]"
+                case = {"part": "empty-section", "shape": name, "filters": fl, "D": D}
+                try:
+                    got = Template(text, uri="/c02e_%d.html" % k, imports=IMPORTS, default_filters=D).render_unicode()
+                except Exception as e:  # noqa: BLE001
+                    got = "%s: %s" % (type(e).__name__, str(e)[:120])
+                if got != exp:
+                    f = Failure(case, "template %r (default_filters=%r) rendered %r, the filters applied to the empty string give %r" % (text, D, got, exp),
+                                "empty-section:" + name)
+                    fails.setdefault(f.key, f)
+                ev.case(key=["empty-section", name, fl, D], nontrivial=bool(fl), labels=("empty-section:" + name,))
+
+
 def run(ctx):
+    efails = {}
+    core.setup_repo()
+    check_empty_sections(ctx.ev, efails)
+    for f in efails.values():
+        ctx.fail(f)
     tasks = [(0, 0, 1), (1, 0, 1)] + [(2, i, 4) for i in range(4)]
     if not ctx.quick:
         tasks += [(3, i, 16) for i in range(16)]
@@ -373,6 +407,10 @@ def run(ctx):
 
 def replay(case):
     core.setup_repo()
+    if case.get("part") == "empty-section":
+        fails = {}
+        check_empty_sections(core.Evidence(), fails)
+        return next((f for f in fails.values() if f.case == case), None)
     try:
         check_case(case)
     except Failure as f:
